@@ -113,6 +113,20 @@ def random_solid_spec(rng, small=False):
     return solid_spec('prism', base, za, za + h, base_kind=bk)
 
 
+def scale_spec(sp, u):
+    """The same solid with every model coordinate multiplied by the dyadic unit u (solids much
+    smaller than one length unit reach the fall-back branches of the point-on-face helper)."""
+    u = F(u)
+    out = dict(sp)
+    out['base'] = [[[H.wn(F(x) * u), H.wn(F(y) * u)] for (x, y) in lp] for lp in sp['base']]
+    out['za'], out['zb'] = H.wn(F(sp['za']) * u), H.wn(F(sp['zb']) * u)
+    out['shift'] = [H.wn(F(sp['shift'][0]) * u), H.wn(F(sp['shift'][1]) * u)]
+    if sp['apex'] is not None:
+        out['apex'] = [H.wn(F(sp['apex'][0]) * u), H.wn(F(sp['apex'][1]) * u)]
+    out['unit'] = H.wn(u)
+    return out
+
+
 def random_presentation(rng, solid, plain=False):
     pres = []
     order = list(range(len(solid.mfaces)))
@@ -896,12 +910,17 @@ def polyface_cases(rng, n_shapes, thorough):
         sp = random_solid_spec(rng, small=(si % 3 == 0))
         if sp is None:
             continue
+        unit = rng.choice([1, 1, 1, F(1, 4), F(1, 8)])
+        if unit != 1:
+            sp = scale_spec(sp, unit)
         solid = solid_from_spec(sp)
         nf = len(solid.mfaces)
         if nf > 70:
             continue
         rigid = H.rand_rigid(rng, big=(rng.random() < 0.1))
         tol = rng.choice([1e-3, 1e-2, 0.005, rng.uniform(1e-3, 1e-2)])
+        if unit != 1:
+            tol = 1e-3
         star = sp['base_kind'] in ('convex', 'box') and len(sp['base']) == 1
         base = {'solid': sp, 'rigid': rigid.to_json(), 'tol': tol, 'removed': [], 'dups': [],
                 'closed': True, 'star': star}
